@@ -43,6 +43,21 @@ def nw_spec(jit, base, mx, n, w):
     return ("nextwait-formula:nojitter", "pause %d, min(max, base*2^(n-1)) is %d" % (w, exp_hi))
 
 
+def pause_py(jit, base, mx, n, r):
+    """the pause the property states, through the normalisation (BackOff<=0 -> 1, Max<=0 -> none);
+    returns (exact or None, upper bound)"""
+    b = 1 if base <= 0 else base
+    m = I64MAX if mx <= 0 else mx
+    if n <= 0:
+        return 0, 0
+    if n >= 63:
+        return m, m
+    if not jit:
+        v = min(m, b * 2 ** (n - 1))
+        return v, v
+    return min(m, b * r), min(m, b * (2 ** n - 1))
+
+
 # ------------------------------------------------------------------ RetryWithCtx scenarios
 def scn(api, retries, keep, outs, kind="none", k=0, p=0, backoff=1, mx=1, jit=0, pool=False):
     return dict(type="run", api=api, retries=retries, keep=keep, outs=list(outs), kind=kind, k=k, p=p,
@@ -60,6 +75,11 @@ def model_req(s):
     if s["api"] == "retry":              # Retry marks every error recoverable
         outs = [("r" + o[1:]) if o[0] == "f" else o for o in outs]
     pre = {"precancel": "C", "predeadline": "D"}.get(kind, "-")
+    if kind == "dl":                     # the model decides the deadline pre-check from the configured BackOff/Max
+        dr = s.get("draws") or []
+        steps = ["%d:%s" % (dr[i - 1] if i - 1 < len(dr) else 0, outs[i]) for i in range(1, len(outs))]
+        return "cfgrun %d %d %d %d %d %d - %s %s" % (s["retries"], s["keep"], s["backoff"], s["max"], s["jit"], s["p"],
+                                                     outs[0], " ".join(steps))
     steps = []
     for i in range(1, len(outs) + 1):    # event of the wait after run i
         if k == i and kind in ("inF", "midwait"):
@@ -99,6 +119,7 @@ def run_spec(s, ans):
     else:
         limit = None if retries == -1 else max(1, retries)
         i = 0
+        dl_elapsed = 0
         while True:
             if i >= len(outs):
                 exp_calls, exp_status = i, "more"; break
@@ -109,13 +130,28 @@ def run_spec(s, ans):
                 exp_calls, exp_status, reason = i, "err", "u%d" % (int(o[1:]) % 8); break
             if limit is not None and i >= limit:
                 exp_calls, exp_status, reason = i, "err", "retries"; break
+            if kind == "dl":
+                # deadline pre-check of iteration i, by the pause the PROPERTY states for the configured values
+                exact, upper = pause_py(s["jit"], s["backoff"], s["max"], i, 0)
+                rem = s["p"] - dl_elapsed
+                if not s["jit"]:
+                    if rem < exact:
+                        exp_calls, exp_status, reason = i, "err", "waitdl"; break
+                    dl_elapsed += exact
+                elif rem - upper >= DELTA:
+                    dl_elapsed += upper          # whatever the draw, the pause fits
+                else:
+                    return []                    # a jittered pause may or may not fit: not constrained
             if k == i and kind in ("inF", "midwait"):
                 exp_calls, exp_status, reason, ctx_stop = i, "err", "canceled", True; break
             if k == i and kind == "midwaitDL":
                 exp_calls, exp_status, reason, ctx_stop = i, "err", "deadline", True; break
             if k == i and kind == "deadline":
                 exp_calls, exp_status, reason = i, "err", "waitdl"; break
-    if calls != exp_calls:
+    if kind == "dl" and status == "err" and f[2] == "waitdl" and (calls != exp_calls or exp_status != "err" or reason != "waitdl"):
+        bad.append(("pause-vs-deadline", "stopped with ErrWaitExceedsDeadline after %d run(s) although every pause the property allows for "
+                    "BackOff=%d Max=%d (jitter %d) fits before a deadline %d ns away" % (calls, s["backoff"], s["max"], s["jit"], s["p"])))
+    elif calls != exp_calls:
         if ctx_stop and calls > exp_calls:
             bad.append(("rerun-after-ctx-end", "the operation ran %d times, the context had ended after run %d" % (calls, exp_calls)))
         else:
@@ -135,7 +171,7 @@ def run_spec(s, ans):
 
 
 def same_run(go, model):
-    g, m = go.split(), model.split()
+    g, m = go.split(), model.split(" ;")[0].split()
     if go in ("skipped", "hang", "panic"):
         return True
     if g[:2] != m[:2]:
@@ -164,6 +200,47 @@ def with_ids(t, mode):
 RETRIES = [-3, -1, 0, 1, 2, 3, 7]
 KEEPS = [-1, 0, 1, 2, 10]
 W = 40 * MS          # the wait in which a timed context event is placed
+DELTA = 25 * MS      # distance kept between a deadline and every pause boundary of a deadline sweep
+HOUR = 3600 * 10 ** 9
+DL_CONFIGS = [(2 * HOUR, 2 * MS), (3 * 10 ** 9, 5 * MS), (2 * HOUR, 2 * HOUR), (HOUR, 2 * HOUR), (5 * MS, 5 * MS),
+              (MS, 0), (MS, -1), (2 * HOUR, 0), (2 * HOUR, -7), (0, 0), (0, 3 * MS), (-5, 2 * MS), (2 ** 62, MS),
+              (I64MAX, 1), (MS, 3 * MS), (I64MAX, I64MAX), (10 * HOUR, 1), (3 * MS, 2 * MS), (50 * MS, 30 * 10 ** 9),
+              (60 * MS, 20 * MS), (20 * MS, 60 * MS), (30 * MS, 0)]
+
+
+def dl_cases(seed, draws_of):
+    """deadline sweeps: RetryWithCtx under a context whose deadline lies D ns ahead, D swept across the boundaries of the
+    pauses predicted for the CONFIGURED BackOff/Max (ideal clock), kept DELTA away from every boundary; the pause is observed
+    through the deadline pre-check, real waiting is limited to 80 ms per case (8 ms with jitter)"""
+    out = []
+    for ci, (b, m) in enumerate(DL_CONFIGS):
+        for jit in (0, 1):
+            sd = (seed + 7919 * ci) % 1000003 + 1
+            draws = draws_of(sd) if jit else [0] * 6
+            for retries, outs in ((3, ["r0", "r1", "r2", "o"]), (4, ["r0", "r1", "r2", "r3", "o"]), (-1, ["r0", "r1", "r2", "o"])):
+                n_it = len(outs) - 1 if retries == -1 else min(len(outs) - 1, retries - 1)
+                ps = [pause_py(jit, b, m, n, draws[n - 1])[0] for n in range(1, n_it + 1)]
+                cands = {HOUR, 10 ** 10, 100 * MS}
+                e = 0
+                for pk in ps:
+                    cands |= {e + pk - 2 * DELTA, e + pk + 2 * DELTA, (e + pk) // 2, e + pk + HOUR}
+                    e += pk
+                for d in sorted(c for c in cands if 2 * DELTA <= c <= I64MAX // 2):
+                    e, ok = 0, True
+                    for pk in ps:
+                        rem = d - e
+                        if abs(rem - pk) < DELTA:
+                            ok = False; break
+                        if rem < pk:
+                            break
+                        e += pk
+                        if e > (8 if jit else 80) * MS:      # jitter cases run one after the other (seeded math/rand)
+                            ok = False; break
+                    if ok:
+                        c = scn("ctx", retries, 2, outs, kind="dl", k=sd, p=d, backoff=b, mx=m, jit=jit, pool=not jit)
+                        c["draws"] = draws[:len(outs)]
+                        out.append(c)
+    return out
 
 
 def build_cases(tier, seed, rnd):
@@ -219,6 +296,7 @@ def timing_cases(seed):
             dict(type="timing", backoff=0, max=3 * MS, jit=0, seed=seed, retries=6),
             dict(type="timing", backoff=3 * MS, max=2 * MS, jit=0, seed=seed, retries=4),
             dict(type="timing", backoff=-5, max=-7, jit=0, seed=seed, retries=6),
+            dict(type="timing", backoff=3 * 10 ** 9, max=5 * MS, jit=0, seed=seed, retries=3),
             dict(type="timing", backoff=1 * MS, max=6 * MS, jit=1, seed=seed, retries=5),
             dict(type="timing", backoff=1 * MS, max=6 * MS, jit=1, seed=seed + 1, retries=5)]
 
@@ -261,6 +339,14 @@ def run(tier, seed, replay=None):
                     if b < 0 or m < 0:
                         items.append(dict(type="nw", jit=jit, base=b, max=m, seed=rnd.getrandbits(40)))
         items += build_cases(tier, seed, rnd)
+        # jitter draws for the deadline sweeps (math/rand seeded in the harness), learnt in a first small harness run
+        seeds = [(seed + 7919 * ci) % 1000003 + 1 for ci in range(len(DL_CONFIGS))]
+        rc0, dl_lines, glog0 = vlib.run_harness(exe, "TestVerifC18", "".join("draws %d 6\n" % sd for sd in seeds), timeout=120, tag="_draws")
+        if rc0 != 0 or len(dl_lines) != len(seeds):
+            res.violation("harness-run", "Go harness failed on the draws request: " + glog0[-800:], dict(kind="harness"), False)
+            return res.finish()
+        dmap = {sd: [int(x) for x in l.split()] for sd, l in zip(seeds, dl_lines)}
+        items += dl_cases(seed, lambda sd: dmap[sd])
         items += timing_cases(seed % 1000003)
         items += [dict(type="tie", trials=256, mode=1), dict(type="tie", trials=64, mode=0)]
 
@@ -311,7 +397,7 @@ def run(tier, seed, replay=None):
     # timed scenarios that disagree are repeated alone, slower, before they are judged
     def disagree(it, g, m):
         return it["type"] == "run" and (not same_run(g, m) or run_spec(it, g))
-    redo = [i for i, it in enumerate(items) if it["type"] == "run" and it.get("pool") and disagree(it, go[i], model[i])]
+    redo = [i for i, it in enumerate(items) if it["type"] == "run" and (it.get("pool") or it["kind"] == "dl") and disagree(it, go[i], model[i])]
     retried = 0
     for attempt in range(2):
         if not redo:
@@ -319,7 +405,8 @@ def run(tier, seed, replay=None):
         slow = []
         for i in redo:
             it = dict(items[i]); it["pool"] = False
-            it["backoff"] *= 4; it["p"] *= 4
+            if it["kind"] != "dl":           # a deadline sweep is repeated as it is, alone
+                it["backoff"] *= 4; it["p"] *= 4
             slow.append(it)
         g2 = harness(slow, tag="_redo%d" % attempt)
         if g2 is None:
@@ -375,6 +462,8 @@ def run(tier, seed, replay=None):
                     it["retries"], it["keep"], " ".join(it["outs"]), it["kind"], it["k"], g, m), rp, False)
             if len(it["outs"]) >= 2 and it["outs"][0] != "o":
                 nontriv.add(("run", it["api"], it["retries"], it["keep"], tuple(it["outs"]), it["kind"], it["k"], it["backoff"], it["jit"]))
+            if it["kind"] == "dl" and it["backoff"] == 2 * HOUR and it["max"] == 2 * MS and it["retries"] == 3 and it["p"] in (HOUR, 100 * MS):
+                samples.append(dict(request=go_line(it), model_request=model_req(it), go=g, model=m))
             if len(samples) < 8 and ((it["kind"] == "midwait" and it["k"] == 3 and it["retries"] == 7 and it["keep"] == 2)
                                      or (it["kind"] == "none" and it["outs"] == ["r0", "r1", "r2", "r3", "f4"] and it["retries"] == 7 and it["keep"] == 2)
                                      or (it["kind"] == "deadline" and it["k"] == 2 and it["retries"] == -1 and it["keep"] == 0)):
@@ -416,7 +505,9 @@ def run(tier, seed, replay=None):
         rule="cases = nextWait lines (BackOff, Max, jitter) each evaluated for n in [-2,70] with the jitter draw mirrored by seeding math/rand "
              "+ RetryWithCtx/RetrySome/Retry scenarios (every outcome sequence over {ok, recoverable, fatal} of length <= 6 x retries in "
              "{-3,-1,0,1,2,3,7} x KeepErrs in {-1,0,1,2,10} x error identities; context ended on entry; cancel inside call k, cancel / deadline-"
-             "exceeded in the middle of wait k, deadline before wait k, k = 1..5) + elapsed-pause runs + select-tie trials. "
+             "exceeded in the middle of wait k, deadline before wait k, k = 1..5; deadline sweeps: 22 configurations incl. 0 < Max < BackOff, "
+             "Max = BackOff, Max <= 0, huge BackOff with tiny Max, jitter on/off, deadline swept across the boundaries of the pauses the model "
+             "predicts from the CONFIGURED values, observed through the deadline pre-check) + elapsed-pause runs + select-tie trials. "
              "non-trivial: nextWait line with BackOff >= 1 and Max >= 1; scenario whose first call fails and that has >= 2 scripted outcomes; "
              "distinct by all parameters",
         samples=samples[:12], input_distribution=dist, traces_validated_against_impl=evals,
